@@ -1097,6 +1097,14 @@ func RunSliceExpr(ctx *Task, expr *ast.SliceExpr) (any, ast.DType, *errchain.PlE
 		endInt = -1
 	}
 
+	// a step beyond the length selects at most one element; clamping it
+	// keeps `i += step` from overflowing
+	if stepInt > length+1 {
+		stepInt = length + 1
+	} else if stepInt < -(length + 1) {
+		stepInt = -(length + 1)
+	}
+
 	// clamp the bounds to the object the way Python does, so that a reversed
 	// or out-of-range pair selects nothing instead of yielding a negative
 	// capacity or an out-of-range index
